@@ -826,7 +826,14 @@ func (s *sliceT) Range() func() (Value, Value, bool) {
 }
 
 func (s *sliceT) Append(items ...Value) Value {
-	return NewSlice(s.valueType, append(s.data, items...))
+	// the elements the slice already holds have its element type: only the new items
+	// are converted, so that an append costs what it appends and not the whole slice
+	n := len(s.data)
+	data := append(s.data, items...)
+	for i := n; i < len(data); i++ {
+		data[i] = data[i].assign(s.valueType)
+	}
+	return newSlice(s.valueType, data)
 }
 
 func (s *sliceT) String() string {
